@@ -164,6 +164,7 @@ class PointsTo:
         self.var = {}         # var key -> set(Obj)
         self.field = {}       # (Obj, key) -> set(Obj)
         self.insertions = []
+        self.list_edits = []      # element removals (pop/remove/clear) and reorderings (sort/reverse) of lists
         self._ins_seen = set()
         self.changed = False
         self._family_root = {}
@@ -644,6 +645,14 @@ class PointsTo:
                 recv = self.pts(e.func.value, fn, mod)
                 if recv and any(o.kind != "list" for o in recv):
                     self._insertion(e, fn, e.func.value, e.args[0] if e.args else None, None, "del")
+                elif recv and id(e) not in self._ins_seen:
+                    self._ins_seen.add(id(e))
+                    self.list_edits.append(Insertion(e, fn, e.func.value, None, None, "remove"))
+            elif name in ("remove", "sort", "reverse") and e.func.value is not None:
+                recv = self.pts(e.func.value, fn, mod)
+                if recv and id(e) not in self._ins_seen:
+                    self._ins_seen.add(id(e))
+                    self.list_edits.append(Insertion(e, fn, e.func.value, None, None, "remove" if name == "remove" else "reorder"))
 
     def _solve(self):
         units = []
@@ -704,6 +713,15 @@ class PointsTo:
             if p in out:
                 keys.reverse()
                 out[c] = {rp + tuple(keys) for rp in out[p]}
+        return out
+
+    def list_edits_of(self, objs):
+        objs = set(objs)
+        out = []
+        for ins in self.list_edits:
+            base = self.pts(ins.base, ins.fn, ins.fn.module if ins.fn else None)
+            if base & objs:
+                out.append((ins, base & objs))
         return out
 
     def insertions_into(self, objs):
